@@ -843,17 +843,39 @@ def _diffcheck(res, fn, cfg, opts, solver, p, obls):
 
 
 # ------------------------------------------------------------------ pool
+class JobTimeout(BaseException):
+    pass
+
+
 def _worker(args):
     case_name, modname, fname, cfg, opts = args
     import importlib
     mod = importlib.import_module(modname)
     fn = getattr(mod, fname)
+    # wall-clock budget per configuration (the Python-side normal form has
+    # no timeout of its own): an overrun is reported, never waited out
+    budget = int(opts.get('job_timeout_s', 0) or 0)
+    if budget:
+        import signal
+
+        def _overrun(signum, frame):
+            raise JobTimeout('configuration exceeded its %d s budget' % budget)
+        signal.signal(signal.SIGALRM, _overrun)
+        signal.alarm(budget)
     try:
         return run_case(case_name, fn, cfg, opts)
+    except JobTimeout as e:
+        res = CaseResult(case_name, cfg)
+        res.errors.append('timeout: %s' % e)
+        return res
     except BaseException as e:  # engine crash: harness error, never silent
         res = CaseResult(case_name, cfg)
         res.errors.append('engine crash: %r\n%s' % (e, traceback.format_exc()))
         return res
+    finally:
+        if budget:
+            import signal
+            signal.alarm(0)
 
 
 def run_all(jobs, nproc=None):
